@@ -194,6 +194,39 @@ def run_case(p, drv):
         if ((mix - sep).abs() > tol(K)).any():
             fail('C13:not-affine', f'decode(l*a+(1-l)*b) differs from l*decode(a)+(1-l)*decode(b) by {(mix - sep).abs().max().item()!r}')
 
+    if mode == 'zero_one' and K == 2:
+        # (a) binary scores in the two-column layout (what the leaves return when binary targets were given as float
+        #     one-hot columns): decoded like any K-column zero_one score - clamp, normalise - to an (N, 2) row
+        g2 = torch.Generator().manual_seed(p['dseed'] + 2)
+        X2 = torch.cat([torch.rand(6, 2, generator=g2), torch.randn(6, 2, generator=g2) * 3.0, torch.tensor([[0.0, 1.0], [1.0, 0.0], [0.5, 0.5]])])
+        try:
+            P2c = conv.numerical_to_probas(X2).double()
+            L2c = conv.numerical_to_labels(X2)
+            ref2 = X2.double().clamp(1e-3, 1 - 1e-3)
+            ref2 = ref2 / ref2.sum(1, keepdim=True)
+            if tuple(P2c.shape) != (X2.shape[0], 2) or ((P2c - ref2).abs() > tol(K)).any():
+                fail('C13:invalid-proba', f'two-column binary scores decode to shape {tuple(P2c.shape)}, expected clamp-normalised (N, 2) rows')
+            elif tuple(L2c.shape) != (X2.shape[0],) or (L2c < 0).any() or (L2c > 1).any():
+                fail('C13:invalid-label', f'two-column binary scores decode to labels {L2c.tolist()}')
+        except Exception as e:  # noqa: BLE001
+            fail(f'C13:raises:{type(e).__name__}', f'two-column binary scores: {e}')
+        # (b) a converter whose leaves answer with logits (logistic solver): the same round trip, and labels = arg-max of
+        #     the sigmoid probabilities (first maximum on a tie, i.e. logit 0 -> class 0)
+        import copy
+        convl = copy.copy(conv)
+        convl._numerical_type = 'logit_diff'
+        try:
+            backl = convl.numerical_to_labels(convl.labels_to_numerical(labels))
+            if tuple(backl.shape) != (N,) or not torch.equal(backl.long(), flat):
+                fail('C13:roundtrip', f'logit-type converter: labels {lab[:12]} -> numerical -> labels gives {backl.reshape(-1).tolist()[:12]}')
+            xl = torch.cat([torch.randn(8, 1, generator=g2) * 2.0, torch.zeros(1, 1)])
+            ll = convl.numerical_to_labels(xl)
+            want = (torch.sigmoid(xl[:, 0]) > 0.5).long()
+            if not torch.equal(ll.long(), want):
+                fail('C13:invalid-label', f'logit-type converter: logits {xl[:, 0].tolist()} decode to {ll.tolist()}, arg-max of the sigmoid row {want.tolist()}')
+        except Exception as e:  # noqa: BLE001
+            fail(f'C13:raises:{type(e).__name__}', f'logit-type converter: {e}')
+
     # ---------------- correspondence with the Lean model on Float ----------------
     dis = res['disagreements']
     Xd = X.double().numpy()
